@@ -151,8 +151,11 @@ impl<'a> ExpressionAnalyzer<'a> {
 
         if let Some(unary_op) = maybe_unary_op {
             match unary_op {
-                UnaryOp::Positive | UnaryOp::Negative => Ok(value.check_number()?),
-                UnaryOp::Not => Ok(value),
+                // Unary plus gives back its operand, whatever it is.
+                UnaryOp::Positive => Ok(value),
+                UnaryOp::Negative => Ok(value.check_number()?),
+                // NOT accepts any operand and yields 1 or 0.
+                UnaryOp::Not => Ok(ValueType::Number),
             }
         } else {
             Ok(value)
@@ -198,21 +201,25 @@ impl<'a> ExpressionAnalyzer<'a> {
     }
 
     fn evaluate_equality_expression(&mut self) -> Result<ValueType, TracedInterpreterError> {
-        let value = self.evaluate_plus_or_minus_expression()?;
+        let mut value = self.evaluate_plus_or_minus_expression()?;
 
         while let Some(_equality_op) = self.program.try_next_token(EqualityOp::from_token) {
             let second_operand = self.evaluate_plus_or_minus_expression()?;
             value.check(second_operand)?;
+            // A comparison yields 1 or 0, whatever was compared.
+            value = ValueType::Number;
         }
 
         Ok(value)
     }
 
     fn evaluate_logical_and_expression(&mut self) -> Result<ValueType, TracedInterpreterError> {
-        let value = self.evaluate_equality_expression()?;
+        let mut value = self.evaluate_equality_expression()?;
 
         while self.program.accept_next_token(Token::And) {
             let _second_operand = self.evaluate_equality_expression()?;
+            // Logical operators accept any operands and yield 1 or 0.
+            value = ValueType::Number;
         }
 
         Ok(value)
@@ -221,10 +228,11 @@ impl<'a> ExpressionAnalyzer<'a> {
     // Logical OR actually has lower precedence than logical AND.  See the Applesoft II BASIC
     // Reference Manual, pg. 36.
     fn evaluate_logical_or_expression(&mut self) -> Result<ValueType, TracedInterpreterError> {
-        let value = self.evaluate_logical_and_expression()?;
+        let mut value = self.evaluate_logical_and_expression()?;
 
         while self.program.accept_next_token(Token::Or) {
             let _second_operand = self.evaluate_logical_and_expression()?;
+            value = ValueType::Number;
         }
 
         Ok(value)
